@@ -189,6 +189,9 @@ MUT={
 		Name:       xml.Name{Space: ns.Bind, Local: "bind"},'''), sub('bind.go','''				resReq := bindIQ{}
 ''','''				resReq = bindIQ{}
 '''))),
+ 'c12-m15-attributes-matched-by-local-name': ('C12', lambda: subprocess.run(['git','apply','/verif/seeded/C12-5/patch.diff'],cwd=R,check=True)),
+ 'c12-m16-random-resource-drawn-per-feature': ('C12', lambda: subprocess.run(['git','apply','/verif/seeded/C12-6/patch.diff'],cwd=R,check=True)),
+ 'c12-m17-xml-prefixed-id-accepted': ('C12', lambda: sub('stream/stream.go','''		case xml.Name{Space: "", Local: "id"}:''','''		case xml.Name{Space: "", Local: "id"}, xml.Name{Space: ns.XML, Local: "id"}:''')),
  'c12-h1-harmless-double-quotes': ('C12', lambda: (sub('internal/stream/stream.go','''b.WriteString(" " + attr.name + "='")''','''b.WriteString(" " + attr.name + "=\\"")'''), sub('internal/stream/stream.go','''		_, err = b.WriteString("'")
 		if err != nil {
 			return err
